@@ -105,7 +105,7 @@ def build():
     if n16 != 1:
         raise LostAnchor("directive scan: first-character computation not found (have %d)" % n16)
     # R9: postfix chain of str methods without Verus specs on `<m>.as_str()` -> nested shim calls, in the order written
-    for h in re.finditer(r"(\w+)\s*\.as_str\(\)((?:\s*\.(?:to_lowercase|trim)\(\))+)", f.mbody):
+    for h in re.finditer(r"(\w+)\s*\.as_str\(\)((?:\s*\.(?:to_lowercase|trim)\(\))+)(\s*\.(starts_with|ends_with|contains)\(\s*(\w+)\s*\))?", f.mbody):
         expr = "%s.as_str()" % h.group(1)
         is_string = False
         for meth in re.findall(r"\.(to_lowercase|trim)\(\)", h.group(2)):
@@ -116,7 +116,10 @@ def build():
                 expr, is_string = "str_trim(%s)" % arg, False
         if is_string:
             expr += ".as_str()"
-        f.replace(h.start(), h.end(), expr, "R9", "str method chain %s -> shim calls" % h.group(2).strip())
+        if h.group(3):
+            # a weaker comparison than `==`: given its std meaning so that the scan's contract can fail on it
+            expr = "strref_%s(%s, %s)" % (h.group(4), expr, h.group(5))
+        f.replace(h.start(), h.end(), expr, "R9", "str method chain %s%s -> shim calls" % (h.group(2).strip(), (h.group(3) or "").strip()))
     rules.r16_map_or(f)
     rules.r9_method_to_fn(f, "trim", "str_trim")
     rules.r9_method_to_fn(f, "is_empty", "str_is_empty")
